@@ -364,7 +364,7 @@ def reaching_store(path: Path, index: int, name: str, fid=Ellipsis):
 
 
 def value_expr(path: Path, index: int, expr, depth: int = 6, keep_clock: bool = True,
-               keep=(), frame=None):
+               keep=(), frame=None, trace: list = None):
     """
     ``expr`` (evaluated at event ``index`` of ``path``) with local names replaced by the
     value that reaches them **on this path** and helper parameters replaced by the
@@ -395,7 +395,7 @@ def value_expr(path: Path, index: int, expr, depth: int = 6, keep_clock: bool = 
                     return None
                 return value_expr(path, pos, ret, depth - 1, keep_clock, keep,
                                   frame=(seen.data.get('ret_fid'), seen.data.get('ret_bind'),
-                                         seen.data['callee'].fn))
+                                         seen.data['callee'].fn), trace=trace)
         return None
 
     class Sub(ast.NodeTransformer):
@@ -420,7 +420,8 @@ def value_expr(path: Path, index: int, expr, depth: int = 6, keep_clock: bool = 
                 # a helper parameter that was not re-bound: the caller's argument
                 if bind and node.id in bind:
                     arg, enter_index = bind[node.id]
-                    return value_expr(path, enter_index, arg, depth - 1, keep_clock, keep)
+                    return value_expr(path, enter_index, arg, depth - 1, keep_clock, keep,
+                                      trace=trace)
                 return node
             pos, store = found
             value = store.data.get('value')
@@ -432,7 +433,9 @@ def value_expr(path: Path, index: int, expr, depth: int = 6, keep_clock: bool = 
             # above); `a, b = x, y` was split element-wise by the interpreter
             if keep_clock and fn is not None and is_current_time(value, store.fn):
                 return node
-            return value_expr(path, pos, value, depth - 1, keep_clock, keep)
+            if trace is not None:
+                trace.append(pos)  # the value was read at this position
+            return value_expr(path, pos, value, depth - 1, keep_clock, keep, trace=trace)
 
         def visit_Call(self, node):
             got = returned_by_helper(original.get(id(node)))
@@ -455,14 +458,31 @@ def value_expr(path: Path, index: int, expr, depth: int = 6, keep_clock: bool = 
     return Sub().visit(tree)
 
 
+def _mentions_state(expr) -> bool:
+    """reads something other activities can change (attributes, calls, subscripts)"""
+    return any(isinstance(n, (ast.Attribute, ast.Call, ast.Subscript, ast.Await))
+               for n in ast.walk(expr))
+
+
+def _last_suspension(path: Path, stop: int) -> int:
+    from .engine import is_suspension
+    for pos in range(min(stop, len(path.events)) - 1, -1, -1):
+        if is_suspension(path.events[pos]):
+            return pos
+    return -1
+
+
 def path_atoms(path: Path, start: int = 0, stop: int = None, keep=()) -> dict:
     """
-    what the tests on ``path`` (between two positions, top frame) established, with the
-    tested operands expanded to the values that reach them:
-    ``{('isnone', 'self._value[1]'): False, ('truth', 'self.defused'): False}``
+    what the tests on ``path`` (between two positions, top frame) established *as of
+    ``stop``*, with the tested operands expanded to the values that reach them:
+    ``{('isnone', 'self._value[1]'): False, ('truth', 'self.defused'): False}``.
+    An outcome that speaks about shared state (attributes, calls) counts only when it was
+    read after the last suspension before ``stop``: anything older may have changed.
     """
     result = {}
     stop = len(path.events) if stop is None else stop
+    fence = _last_suspension(path, stop)
     for pos in range(start, stop):
         event = path.events[pos]
         if event.kind not in ('test', 'assert') or event.depth != 0:
@@ -474,7 +494,11 @@ def path_atoms(path: Path, start: int = 0, stop: int = None, keep=()) -> dict:
             operand = ast.parse(key[1], mode='eval').body
         except SyntaxError:
             continue
-        text = value_text(path, pos, operand, keep=tuple(keep))
+        trace = []
+        expanded = value_expr(path, pos, operand, keep=tuple(keep), trace=trace)
+        if _mentions_state(expanded) and min(trace + [pos]) <= fence:
+            continue  # stale: read before other activities could run
+        text = normalise_state_aliases(ast.unparse(expanded))
         result[(key[0], text)] = event.data.get('value') == event.data.get('positive', True)
     return result
 
@@ -672,15 +696,17 @@ def path_inequalities(path: Path, start: int = 0, stop: int = None, transform=No
     """
     result = []
     stop = len(path.events) if stop is None else stop
+    fence = _last_suspension(path, stop)
     for pos in range(start, stop):
         event = path.events[pos]
         if event.kind not in ('test', 'assert') or 'value' not in event.data:
             continue
-        seen = value_expr(path, pos, event.node, **kw)
+        trace = []
+        seen = value_expr(path, pos, event.node, trace=trace, **kw)
         if not isinstance(seen, ast.Compare):
             continue
-        if not isinstance(event.node, ast.Compare) and not stable_locals(path, seen):
-            continue
+        if _mentions_state(seen) and min(trace + [pos]) <= fence:
+            continue  # stale as of `stop`
         if transform is not None:
             seen = transform(seen, event.fn)
         found = asserted(seen, event.data['value'])
